@@ -45,3 +45,15 @@ Theorem C14_head_timed_out_after_header_timeout : forall step elapsed hT bT,
   step < 2 -> (hT < elapsed)%N -> idle step elapsed hT bT = true.
 Proof. exact idle_head_after_header_timeout. Qed.
 Print Assumptions C14_head_timed_out_after_header_timeout.
+
+(* A refused request is not delivered in pieces either.  On a live connection (HandlerModel.serve = Handler::onInput read by
+   read) the first refusal - 413 for the size, or the parser's 4xx/5xx - is the last thing that happens: whatever bytes
+   follow (the rest of the refused request, a request hidden in its body, further requests) the handler is not called and
+   no further response is sent (fix of the third seeding round; before it the rest of a refused request was parsed as new
+   requests: "[413, 200]" with a handler call for a request the client never sent). *)
+Theorem C14_nothing_after_refusal : forall typed_other set_cookie reads maxsz st pre c post,
+  serve typed_other set_cookie maxsz st reads = pre ++ ARespond c :: post ->
+  forallb (fun a => negb (is_respond a)) pre = true ->
+  forallb is_wait post = true.
+Proof. exact nothing_after_refusal. Qed.
+Print Assumptions C14_nothing_after_refusal.
